@@ -159,7 +159,28 @@ CUSTOM_VARIANTS = [
     dict(requireSets=[[ord("7")], [0xE9, 0xFC]], allowChars=[0xFC, 0x169]),                           # shared UTF-8 bytes
     dict(allowChars=[ord("a"), ord("b"), ord("e"), 0x301], excludeChars=[ord("e")]),                   # decomposed text: e + combining acute, e excluded
     dict(allowChars=[ord("e"), ord("e"), 0x301, ord("o"), 0x308], requireSets=[[ord("e"), 0x301]], excludeChars=[0x301]),
+    # letters and digits of the same Unicode categories as the ASCII classes (a required class is its ASCII members, nothing else)
+    dict(allowChars=[0xC4, 0xDF, 0x663, 0xFF10, 0x391]),
+    # characters that are not "printable": control, no-break space, soft hyphen, zero-width joiner, BOM, private use, replacement character
+    dict(allowChars=[10, 0xA0, 0xAD, 0x200D, 0xFEFF, 0xE000, 0xFFFD, ord("a")], requireSets=[[0xFFFD, 0xA0]]),
 ]
+NVARIANTS = len(CUSTOM_VARIANTS)
+
+
+def directed_small_trees():
+    """Complete trees (length 1-2) whose support decides membership questions that forced paths of long recipes cannot."""
+    out = []
+    def c(**kw):
+        base = dict(len=1, allow=0, require=0, exclude=0, allowChars=[], requireSets=[], excludeChars=[])
+        base.update(kw)
+        return dict(kind="char", char=base, maxTrials=1, failRateOne=1, mode="tree", paths=0, maxLeaves=0, tag="directed-small")
+    for req, extra in ((1, [0xC4, 0x391]), (2, [0xDF, 0xE9]), (4, [0x663, 0xFF10]), (3, [0xC4, 0xDF]), (5, [0x391, 0x663])):
+        out.append(c(len=1, allow=req, require=req, allowChars=extra))          # only the ASCII members satisfy the required class
+        out.append(c(len=2, allow=0, require=req, allowChars=extra))
+    for extra in ([10, 0xA0, ord("a")], [0xAD, 0x200D, ord("b"), 0xFFFD], [0xFEFF, 0xE000, 0x10FFFF, ord("c")], [9, 0x3000, 0x2028]):
+        out.append(c(len=1, allowChars=extra))                                   # every listed character can be drawn
+        out.append(c(len=2, allowChars=extra, requireSets=[extra[:1]]))
+    return out
 
 
 def flag_scen(allow, require, exclude, variant, L, paths, tag, env_default=True):
